@@ -13,6 +13,10 @@ import (
 	"google.golang.org/protobuf/proto"
 )
 
+// aeadNonceSize is the size of the AES-GCM nonce that the aead wrapper prepends
+// to the ciphertext
+const aeadNonceSize = 12
+
 // X25519KeyProducer is an interface that can be satisfied by an underlying type
 // that produces an encryption key via X25519, along with a key identifier used
 // for AAD and embedding in the wrapping data. If the ID is empty, it is simply
@@ -144,6 +148,12 @@ func decryptWithKey(ctx context.Context, keyId string, ct []byte, sharedKey []by
 	blobInfo := new(wrapping.BlobInfo)
 	if err := proto.Unmarshal(ct, blobInfo); err != nil {
 		return fmt.Errorf("(%s) error unmarshaling incoming blob info: %w", op, err)
+	}
+
+	// The AEAD wrapper takes its nonce off the front of the ciphertext without
+	// checking the length, so refuse anything too short to carry one
+	if len(blobInfo.Ciphertext) < aeadNonceSize {
+		return fmt.Errorf("(%s) ciphertext is too short", op)
 	}
 
 	var aadOpt wrapping.Option
